@@ -59,11 +59,11 @@ def _build_model(case, points, m):
     mk = case["model"]
     N, d = points.shape
     if mk["kind"] == "stub":
-        means = np.array(mk["means"], float).reshape(N, m)
+        means = np.array(mk["means"], float).reshape(N, m) * float(mk.get("mean_scale", 1.0))
         covs = []
         for i in range(N):
             A = np.array(mk["A"][i], float).reshape(m, m)
-            covs.append(A @ A.T + np.diag(mk["diag"][i]))
+            covs.append((A @ A.T + np.diag(mk["diag"][i])) * float(mk.get("cov_scale", 1.0)))
         return StubModel(points, means, np.array(covs)), None, 1e-12
     if mk["kind"] == "emp":
         from vopy.models import EmpiricalMeanVarModel
@@ -166,7 +166,8 @@ def check_update_history(case):
                 continue
             k = idx.index(i)
             mu, cov = fm[i], fc[i]
-            sc = max(1.0, float(np.abs(mu).max()), float(np.abs(smat[k]).max() * np.sqrt(np.abs(np.diag(cov)).max())))
+            # purely relative: mean -/+ scale*std is exact up to an ulp of the larger of the two terms
+            sc = max(1e-300, float(np.abs(mu).max()), float(np.abs(smat[k]).max() * np.sqrt(np.abs(np.diag(cov)).max())))
             if ctype == "rect":
                 half = np.sqrt(np.diag(cov)) * smat[k]
                 lo, up = after[i]
@@ -184,7 +185,7 @@ def check_update_history(case):
                                             f"expected scale*std {half.tolist()}", labels)
             else:
                 c, S, a = after[i]
-                if np.max(np.abs(c - mu)) > tol * sc or np.max(np.abs(S - cov)) > tol * max(1.0, np.abs(cov).max()) or abs(a - smat[k][0]) > 1e-12 * max(1, abs(a)):
+                if np.max(np.abs(c - mu)) > tol * sc or np.max(np.abs(S - cov)) > tol * max(1e-300, np.abs(cov).max()) or abs(a - smat[k][0]) > 1e-12 * max(1, abs(a)):
                     return Result.violation("C14:ell:centre-cov-radius" + (":single-index" if len(idx) == 1 else ""),
                                             f"design {i} (update of {idx}): centre {np.asarray(c).tolist()} cov {np.asarray(S).tolist()} radius {a}; "
                                             f"model mean {mu.tolist()} cov {cov.tolist()} scale {smat[k][0]}", labels)
@@ -245,7 +246,9 @@ def st_model(draw, N, d, m, allow_emp):
     if kind == "stub":
         return {"kind": "stub", "means": [[draw(st.floats(-3, 3)) for _ in range(m)] for _ in range(N)],
                 "A": [[draw(st.floats(-1, 1)) for _ in range(m * m)] for _ in range(N)],
-                "diag": [[draw(gen.st_logfloat(1e-4, 1.0)) for _ in range(m)] for _ in range(N)]}
+                "diag": [[draw(gen.st_logfloat(1e-4, 1.0)) for _ in range(m)] for _ in range(N)],
+                "cov_scale": draw(st.sampled_from([1.0, 1.0, 1.0, 1e-6, 1e-12, 1e-20, 1e6])),
+                "mean_scale": draw(st.sampled_from([1.0, 1.0, 1.0, 1e-5, 1e4]))}
     if kind == "emp":
         adds = []
         for _ in range(draw(st.integers(1, 4))):
